@@ -302,8 +302,12 @@ func opKeep(a []*sx) string {
 	for _, q := range inb {
 		k.inbuf[q.path] = true
 	}
-	// the input buffer is reused by the caller: overwrite it unless a nocopy field views it
-	if len(inb) == 0 {
+	// the input buffer is reused by the caller: overwrite it unless the type asks for nocopy views;
+	// without the option nothing of the object may lie in the input
+	if !hasNoCopy(p.Elem().Type(), map[reflect.Type]bool{}) {
+		for _, q := range inb {
+			problems = append(problems, "views-input-without-nocopy:"+q.path)
+		}
 		for i := range buf {
 			buf[i] = 0xEE
 		}
